@@ -548,6 +548,14 @@ def generate(tier):
                 return False
             if build_term(t) is S.Zero:
                 return False
+        # a tensor name has ONE rank split: the same name with (2,1) slots in
+        # one term and (1,2) slots in another is not a meaningful input (the
+        # block key of remove_tensor / derivative could not tell them apart)
+        split = {}
+        for t in terms:
+            for o in t[1]:
+                if o[0] == name and split.setdefault(len(o[3]), o[1]) != o[1]:
+                    return False
         key = (terms, name)
         if key in seen:
             return False
